@@ -288,6 +288,40 @@ static void one_case_t(const Case& c) {
         check_unmodified("multisequence_partition/order");
     }
     int ncalls = 1;
+    // the rank is a template parameter: the same call with an unsigned 64-bit, an unsigned 32-bit and an int rank must give
+    // the same split (arithmetic on the rank inside the function must not depend on its signedness or width)
+    {
+        Elem** offs2 = new Elem*[m];
+        // one alternative rank type per case, in rotation (every (tuple, rank) meets size_t within three neighbouring ranks)
+        static unsigned rot = 0;
+        const int rt0 = (int)(rot++ % 3);
+        for (int rt = rt0; rt <= rt0; ++rt) {
+            for (int i = 0; i < m; ++i) offs2[i] = nullptr;
+            vh::at_op("multisequence_partition");
+            if (rt == 0) {
+                if (c.greater) tlx::multisequence_partition(seqs, seqs + m, (size_t)rank, offs2, std::greater<Elem>());
+                else tlx::multisequence_partition(seqs, seqs + m, (size_t)rank, offs2);
+            } else if (rt == 1) {
+                if (c.greater) tlx::multisequence_partition(seqs, seqs + m, (unsigned)rank, offs2, std::greater<Elem>());
+                else tlx::multisequence_partition(seqs, seqs + m, (unsigned)rank, offs2);
+            } else {
+                if (c.greater) tlx::multisequence_partition(seqs, seqs + m, (int)rank, offs2, std::greater<Elem>());
+                else tlx::multisequence_partition(seqs, seqs + m, (int)rank, offs2);
+            }
+            ++ncalls;
+            bool same = true;
+            for (int i = 0; i < m; ++i)
+                if (offs2[i] != offs[i]) same = false;
+            if (!same) {
+                static const char* rn[3] = {"size_t", "unsigned", "int"};
+                std::string got;
+                for (int i = 0; i < m; ++i) got += vh::fmt("%s%lld", i ? "," : "", ((long long)(intptr_t)offs2[i] - (long long)(intptr_t)buf[i]) / (long long)sizeof(Elem));
+                vh::fail("multisequence_partition/rank-type", RP(), RP() + vh::fmt(" with a rank of type %s the split is [%s], different from the split for a ptrdiff_t rank", rn[rt], got.c_str()));
+                break;
+            }
+        }
+        delete[] offs2;
+    }
 
     // ---- multisequence_selection (documented for 0 <= rank < N only)
     if (rank < N) {
